@@ -102,6 +102,7 @@ func refExpand(tmpl string, vals []string) string {
 
 type pipeRec struct {
 	bufferID, tag string
+	idAtStart, tagAtStart string // copies taken when the pipeline was started
 	tuples        []string // canonical tuple of every record received
 }
 
@@ -134,7 +135,7 @@ func run(c Case) vh.Result {
 	var pipes []*pipeRec
 	var wg sync.WaitGroup
 	starter := func(_ logger.Logger, _ promreg.MetricCreator, input <-chan []*base.LogRecord, bufferID string, outputTag string, onStopped func()) {
-		p := &pipeRec{bufferID: bufferID, tag: outputTag}
+		p := &pipeRec{bufferID: bufferID, tag: outputTag, idAtStart: strings.Clone(bufferID), tagAtStart: strings.Clone(outputTag)}
 		mu.Lock()
 		pipes = append(pipes, p)
 		mu.Unlock()
@@ -249,6 +250,10 @@ func run(c Case) vh.Result {
 	seenTuple := map[string]*pipeRec{}
 	for _, p := range pipes {
 		total += len(p.tuples)
+		if p.tag != p.tagAtStart || p.bufferID != p.idAtStart {
+			res.Violation = vh.Fail("route:tag-or-id-changed-later", "a pipeline was started with tag %q and queue ID %q; after later records were processed the same strings read %q and %q", p.tagAtStart, p.idAtStart, p.tag, p.bufferID)
+			return res
+		}
 		own := ""
 		for _, t := range p.tuples {
 			if own == "" {
